@@ -5,8 +5,8 @@ import (
 	"fmt"
 	"os"
 	"path/filepath"
-	"sync/atomic"
 	"strings"
+	"sync/atomic"
 	"testing"
 	"testing/synctest"
 	"time"
@@ -150,6 +150,7 @@ func TestCheck(t *testing.T) {
 		"data metadata is not compared; an empty block needs only its header",
 		"producer chains are produced by a real aggregator run; executor double = hash-chain reference",
 		"ingress level: all five loops of the full node under the cooperative scheduler; blobs within <=2/3 deviations from the in-order placement on 3 DA heights; P2P stores empty or holding the chain; the sends into the sync loop's input channels are diverted into harness-side FIFOs (buffered-channel semantics) and the explorer decides at every point where an event is deliverable who goes next (a producer running ahead, the next header, the next data event; <=1/2 deviations from 'producers, headers, data') and whether the node is cleanly restarted right there (queued events are lost with the process)",
+		"crowded heights: the retrieval batch size of types.RetrieveWithHelpers is taken as 100 (C09 measures it); filler blobs are short non-protobuf byte strings",
 	}
 	var patterns []string
 	for k := 1; k <= nAbove; k++ {
@@ -170,6 +171,7 @@ func TestCheck(t *testing.T) {
 			Pattern string
 			Initial uint64
 			Ingress bool
+			Crowded bool
 			Choices []explore.Point
 		}
 		if _, err := r.LoadReplay(&h); err != nil {
@@ -180,7 +182,7 @@ func TestCheck(t *testing.T) {
 			explore.ReplayOne(h.Choices, func(c *explore.Ctx) {
 				o := outcome{}
 				if h.Ingress {
-					o = ingressBody(t, c, pc)
+					o = ingressBody(t, c, pc, h.Crowded)
 				} else {
 					o = body(t, c, pc)
 				}
@@ -195,6 +197,45 @@ func TestCheck(t *testing.T) {
 	}
 	deadline := time.Now().Add(vf.Pick(r, 100*time.Second, 25*time.Minute))
 	var caps []string
+	l2patterns := vf.Pick(r, []string{"ab"}, []string{"ab", "ea"})
+	// level 2, crowded heights: every (filler count, DA height, ahead) configuration; small and run first so that the deadline never cuts it
+	crowdBudgets := vf.Pick(r, map[string]int{"order": 0, "restart": 0}, map[string]int{"order": 1, "restart": 1})
+	var crowdRuns, crowdPoints int64
+	crowdNs, crowdConfigs := map[string][]int{}, 0
+	for _, pt := range l2patterns {
+		pc, err := world.BuildChain(pt, 1)
+		if err != nil {
+			r.EngineError(err.Error())
+			continue
+		}
+		crowdNs[pt] = crowdFillers(len(pc.Events()))
+		crowdConfigs += len(crowdNs[pt]) * 3 * 2
+		left := time.Until(deadline)
+		if left <= 0 {
+			caps = append(caps, "deadline reached before crowded ingress pattern "+pt)
+			break
+		}
+		st := explore.Explore(explore.Config{Budgets: crowdBudgets, Deadline: left}, func(c *explore.Ctx) {
+			o := ingressBody(t, c, pc, true)
+			if o.fail != nil {
+				r.Report(vf.Violation{Clause: o.fail.Clause, Tags: append(o.tags, "ingress-level", "crowded-height"), Msg: fmt.Sprintf("[ingress level, crowded DA height, chain genesis+%q] %s\n %s", pt, o.fail.Msg, strings.Join(o.trace, " ")), Cost: c.Cost(), History: map[string]any{"Pattern": pt, "Initial": 1, "Ingress": true, "Crowded": true, "Choices": c.Choices()}})
+				r.Outcome("L2:crowded:fail:" + o.fail.Clause)
+				return
+			}
+			r.Outcome("L2:crowded:" + pt + ":" + strings.Join(o.trace, " "))
+			if c.Cost() >= 2 {
+				r.Sample(map[string]any{"level": "ingress, crowded height", "chain": "genesis+" + pt, "trace": strings.Join(o.trace, " "), "final_height": o.height})
+			}
+		})
+		crowdRuns += st.Executions
+		crowdPoints += st.Points
+		for _, m := range st.Nondet {
+			r.EngineError("nondeterminism (ingress level, crowded): " + m)
+		}
+		if st.Capped != "" {
+			caps = append(caps, "crowded ingress "+pt+": "+st.Capped)
+		}
+	}
 	for _, j := range jobs {
 		pc, err := world.BuildChain(j.pattern, j.initial)
 		if err != nil {
@@ -228,7 +269,6 @@ func TestCheck(t *testing.T) {
 		}
 	}
 	// level 2: ingress loops, DA placement, restart between any two steps
-	l2patterns := vf.Pick(r, []string{"ab"}, []string{"ab", "ea"})
 	l2budgets := vf.Pick(r, map[string]int{"place": 1, "order": 1, "restart": 1}, map[string]int{"place": 2, "order": 1, "restart": 1})
 	var l2 explore.Stats
 	for _, pt := range l2patterns {
@@ -243,7 +283,7 @@ func TestCheck(t *testing.T) {
 			break
 		}
 		st := explore.Explore(explore.Config{Budgets: l2budgets, Deadline: left}, func(c *explore.Ctx) {
-			o := ingressBody(t, c, pc)
+			o := ingressBody(t, c, pc, false)
 			if o.fail != nil {
 				r.Report(vf.Violation{Clause: o.fail.Clause, Tags: append(o.tags, "ingress-level"), Msg: fmt.Sprintf("[ingress level, chain genesis+%q] %s\n %s", pt, o.fail.Msg, strings.Join(o.trace, " ")), Cost: c.Cost(), History: map[string]any{"Pattern": pt, "Initial": 1, "Ingress": true, "Choices": c.Choices()}})
 				r.Outcome("L2:fail:" + o.fail.Clause)
@@ -263,12 +303,14 @@ func TestCheck(t *testing.T) {
 			caps = append(caps, "ingress "+pt+": "+st.Capped)
 		}
 	}
+	l2.Executions += crowdRuns
+	l2.Points += crowdPoints
 	total.Executions += l2.Executions
 	total.Points += l2.Points
 	r.Finish(vf.Coverage{
 		Evaluations: total.Executions, DistinctNontrivial: int64(r.DistinctOutcomes()), States: total.Executions, Transitions: total.Points,
-		Rule:       "for every producer chain pattern over {empty, A, B} of 1..n blocks above the genesis block (incl. identical transaction lists) and two chains with initial height 3: every permutation of the header/data events, with at most one duplicated event at any later position and at most one clean stop/restart at any idle point; distinct = distinct delivery traces",
+		Rule:       "for every producer chain pattern over {empty, A, B} of 1..n blocks above the genesis block (incl. identical transaction lists) and two chains with initial height 3: every permutation of the header/data events, with at most one duplicated event at any later position and at most one clean stop/restart at any idle point; ingress level additionally in the crowded-height configuration: all genuine blobs at one DA height (each of the 3) behind N filler blobs, for every N that puts a genuine blob on an index in {b-1, b, b+1, 2b, 2b+1} of the height (b = retrieval batch size 100), scan ahead of or in step with the DA layer, DA the only ingress; distinct = distinct delivery traces",
 		Exhaustive: true, Caps: caps,
-		Bounds:     map[string]any{"blocks_above_genesis": nAbove, "patterns": len(jobs), "budgets": budgets, "ingress_patterns": l2patterns, "ingress_budgets": l2budgets, "ingress_executions": l2.Executions},
+		Bounds: map[string]any{"blocks_above_genesis": nAbove, "patterns": len(jobs), "budgets": budgets, "ingress_patterns": l2patterns, "ingress_budgets": l2budgets, "ingress_executions": l2.Executions, "ingress_crowded_budgets": crowdBudgets, "ingress_crowded_executions_shard0": crowdRuns, "ingress_crowded_configurations": crowdConfigs, "ingress_crowded_filler_counts": crowdNs, "ingress_crowded_retrieval_batch": retrievalBatch},
 	})
 }
